@@ -46,6 +46,8 @@ type CLI struct {
 	// AfterBare: printed behind the prompt that answers a bare return in command state, followed by the prompt again (an
 	// asynchronous log message that makes the device redraw its prompt)
 	AfterBare string
+	// AfterPromptOnce: printed once behind the next prompt the device shows in command state (no prompt follows it)
+	AfterPromptOnce string
 	// Mute: the device swallows whatever it receives from now on and says nothing
 	Mute bool
 	// StartMode: when set, every new connection starts a session of its own in this mode (nothing of the previous session -
@@ -156,6 +158,12 @@ func (c *CLI) OnInput(b []byte) []byte {
 			c.NoPrompt = false
 		default:
 			out.WriteString(c.Prompts[c.Mode])
+
+			if c.AfterPromptOnce != "" {
+				// something the device says behind its prompt, in the same piece of output (a console log line)
+				out.WriteString(c.AfterPromptOnce)
+				c.AfterPromptOnce = ""
+			}
 
 			if line == "" && c.AfterBare != "" {
 				// twice: the first redrawn prompt then stands on a line of its own (the input typed next shares the line of the last one)
